@@ -105,6 +105,11 @@ func main() {
 			}
 		}
 	}
+	// the handler flushes before it has written anything (the implicit 200 goes out), then writes or reports an error
+	behaviours = append(behaviours,
+		behaviour{name: "flush-then-write(x)+return(0,nil)", script: "flush;write:x;ret:0", wrote: true, status: 200, body: "x"},
+		behaviour{name: "flush-then-write(5k)+return(0,err)", script: "flush;write:5000xt;ret:0:boom", wrote: true, status: 200, body: big, retErr: true})
+	// (a handler that flushes and then returns an error status breaks the handler contract itself: not in the alphabet)
 	// a response that is a template which parses but fails when executed (only meaningful behind templates)
 	tplErr := `{{.Include "missing-file"}}`
 	behaviours = append(behaviours,
